@@ -90,7 +90,9 @@ class ClassDesc:
         p = self.prop(prop)
         if p is None or not p.notify:
             return None
-        cands = self.signals_named(p.notify)
+        # documented rule: among the overloads whose first argument has the property's type (or that take no
+        # argument), the one carrying the most arguments (default-argument variants are separate entries)
+        cands = [s for s in self.signals_named(p.notify) if not s.args or s.args[0] == p.ty]
         if not cands:
             return None
         return max(cands, key=lambda s: len(s.args))
